@@ -155,8 +155,9 @@ func VC05_faults() {
 	c5setup(day)
 	if vrt.Bool() {
 		vos.AddDir(c5root + "/local")
-		if vrt.Bool() {
-			vos.AddFile(c5root+"/local/weekends", []byte("2\n"))
+		// the week-end setting: absent, proper, or damaged (blank, empty, not a digit)
+		if k := vrt.Choose(6); k > 0 {
+			vos.AddFile(c5root+"/local/weekends", []byte([]string{"2\n", "\n", "", " \r\n", "x"}[k-1]))
 		}
 	}
 	n1 := vrt.Choose(vrt.Param("calls", 14) + 1) // index of the first failing call (0: none)
@@ -217,5 +218,50 @@ func VC05_faults() {
 	vrt.Assert(!st.locked() && st.readers() == 0, "the counter is left unlocked")
 	if f.err != nil {
 		vrt.Assert(f.current.Load() == nil, "a failed file has no mapping")
+	}
+}
+
+// VC05_pending: counters incremented before the file is opened, and a file whose first
+// page is full, so that flushing the first pending counter extends and remaps the file
+// while the second still holds a pending amount: Open returns (nobody waits for a lock that
+// is never released) and both counts are persisted.
+func VC05_pending() {
+	vos.Reset()
+	day := vrt.DaysFromCivil(2024, 1, 10)
+	c5setup(day)
+	vos.AddDir(c5root + "/local")
+	vos.AddFile(c5root+"/local/weekends", []byte("2\n"))
+	// an existing file of this week whose first page is used up
+	f0 := &file{buildInfo: c3bi()}
+	f0.rotate1()
+	(&Counter{name: "old", file: f0}).Add(1)
+	m := f0.current.Load()
+	c5wr32(m.mapping.Data, m.hdrLen, uint32(pageSize-32))
+	m.close()
+	f := &file{buildInfo: c3bi()}
+	c := &Counter{name: "c", file: f}
+	d := &Counter{name: "d", file: f}
+	n1, n2 := vrt.I64(), vrt.I64()
+	vrt.Assume(n1 > 0 && n1 < 1<<20 && n2 > 0 && n2 < 1<<20)
+	c.Add(n1)
+	d.Add(n2)
+	f.rotate1()
+	vrt.Reach("opened")
+	vrt.Assert(f.err == nil && f.current.Load() != nil, "the file opens")
+	for _, x := range []struct {
+		c *Counter
+		n int64
+	}{{c, n1}, {d, n2}} {
+		st := x.c.state.load()
+		var persisted uint64
+		for _, node := range vos.Nodes {
+			if !node.Gone && len(node.Name) > 9 && node.Name[len(node.Name)-9:] == ".v1.count" && len(node.Data) >= 16384 {
+				if v, ok := c3value(node.Data, x.c.name); ok {
+					persisted += v
+				}
+			}
+		}
+		vrt.Assert(persisted+st.extra() == uint64(x.n), "pending counts survive the opening of a full file")
+		vrt.Assert(!st.locked() && st.readers() == 0, "the counter is left unlocked")
 	}
 }
